@@ -83,7 +83,10 @@ def invariance_case(case, ctx):
 
     if case.get("override_between"):
         # an intervening call that overrides built-in rules (documented use of additional_nonlinear_ops) must not change later calls
-        plain = lambda module, grad_input, grad_output: grad_input
+        # the overriding rule scales the plain gradient by a case-specific factor: if overrides leak across calls (and so across
+        # cases of this process) the judged calls before and after this one still see *different* leaked rules
+        scale = float(case.get("override_scale", 2.0))
+        plain = lambda module, grad_input, grad_output: tuple(None if g_ is None else g_ * scale for g_ in grad_input)
         with warnings.catch_warnings():
             warnings.simplefilter("ignore")
             try:
@@ -132,7 +135,8 @@ def strategy(draw):
     subset = sorted(draw(st.sets(st.integers(0, n - 1), min_size=1, max_size=n)))
     case = {"arch": arch, "seed": draw(st.integers(0, 10 ** 6)), "X": X, "refs": refs, "target": draw(st.integers(0, arch["T"] - 1)),
             "mode": draw(st.sampled_from(["processed", "raw", "hyp"])), "batch_sizes": bs, "subset": subset,
-            "perm": list(draw(st.permutations(list(range(n))))), "override_between": draw(st.integers(0, 3)) == 0}
+            "perm": list(draw(st.permutations(list(range(n))))), "override_between": draw(st.integers(0, 3)) == 0,
+            "override_scale": draw(st.sampled_from([0.25, 0.5, 1.5, 2.0, 3.0, 5.0, 7.0]))}
     if draw(st.integers(0, 2)) == 0:
         case["argvals"] = [[draw(st.integers(-3, 3)), 10 * i + draw(st.integers(0, 3))] for i in range(n)]
     return case
